@@ -6,6 +6,7 @@ so that equivalent spellings of the same operation are one form before any rule 
   np.max(x, ...) etc.                      ->  x.max(...)      (max min sum mean std all any argsort argmax argmin ptp)
   dict(k=v, ...)                           ->  {"k": v, ...}
   not (a is b), not (a in b), not a == b   ->  a is not b, a not in b, a != b
+  'v{0}'.format(i), 'v{}'.format(i)         ->  f'v{i}'
   x if not c else y                        ->  y if c else x   (also for `is not None`, `!=`, `not in` tests)
 """
 import ast
@@ -19,6 +20,35 @@ _NEGATIVE_OPS = (ast.IsNot, ast.NotIn, ast.NotEq)
 
 def _is_np(node):
     return isinstance(node, ast.Name) and node.id in NP
+
+
+def _format_to_fstring(fmt, args):
+    """'v{0}'.format(i) / 'v{}'.format(i) -> f'v{i}'  (plain positional fields without conversion or format spec only)"""
+    import string
+    vals = []
+    auto = 0
+    try:
+        parts = list(string.Formatter().parse(fmt))
+    except ValueError:
+        return None
+    for lit, field, spec, conv in parts:
+        if lit:
+            vals.append(ast.Constant(value=lit))
+        if field is None:
+            continue
+        if spec or conv:
+            return None
+        if field == "":
+            i = auto
+            auto += 1
+        elif field.isdigit():
+            i = int(field)
+        else:
+            return None
+        if i >= len(args):
+            return None
+        vals.append(ast.FormattedValue(value=args[i], conversion=-1, format_spec=None))
+    return ast.JoinedStr(values=vals)
 
 
 class _N(ast.NodeTransformer):
@@ -36,6 +66,11 @@ class _N(ast.NodeTransformer):
                     return ast.copy_location(ast.Call(func=ast.copy_location(m, n), args=n.args[1:], keywords=n.keywords), n)
         if isinstance(f, ast.Attribute) and f.attr in ALIAS and not _is_np(f.value):
             f.attr = ALIAS[f.attr]
+        if isinstance(f, ast.Attribute) and f.attr == "format" and isinstance(f.value, ast.Constant) and isinstance(f.value.value, str) and not n.keywords \
+                and n.args and not any(isinstance(a, ast.Starred) for a in n.args):
+            js = _format_to_fstring(f.value.value, n.args)
+            if js is not None:
+                return ast.copy_location(js, n)
         if isinstance(f, ast.Name) and f.id == "dict" and not n.args and n.keywords and all(k.arg for k in n.keywords):
             return ast.copy_location(ast.Dict(keys=[ast.Constant(value=k.arg) for k in n.keywords], values=[k.value for k in n.keywords]), n)
         return n
